@@ -227,6 +227,43 @@ Example C19_journal_example :
   = [(0%Z, 7%Z, [5%N]); (7%Z, 9%Z, [6%N])].
 Proof. reflexivity. Qed.
 
+(* ---- FINDING: a journal line longer than the reader's scanner buffer (64 KiB) ----
+   A chunk that recorded some 21 000 distinct addresses or more is written as ONE line of more than 65 536 bytes.  The
+   pinned reader (bufio.Scanner with its default buffer, Err() never examined; Model/Journal.v count_v0) ends its loop
+   at that line as at the end of the file: the chunk and everything behind it are left out and NO error is returned.
+   REFUTED for the pinned reader: a journal of three chunks, all inside the window, holding four distinct addresses; the
+   middle line is long: (1 address, 1 chunk) is reported where the window law (C19_window) says (4, 3) *)
+Theorem C19_journal_reader_long_line_refuted :
+  exists (long : chunk N -> bool) (j : list (chunk N)) (from to : Z),
+    Forall (fun c => (from <= c_start c /\ c_end c <= to)%Z) j /\
+    count N N.eqb from to j = (4%N, 3%N) /\ count_v0 N N.eqb long from to j = (1%N, 1%N).
+Proof.
+  exists (fun c => (2 <=? List.length (c_sk c))%nat),
+         [{| c_start := 0%Z; c_end := 1%Z; c_sk := [1%N] |}; {| c_start := 1%Z; c_end := 2%Z; c_sk := [2%N; 3%N] |};
+          {| c_start := 2%Z; c_end := 3%Z; c_sk := [4%N] |}], 0%Z, 3%Z.
+  split; [repeat constructor; cbn; discriminate | split; reflexivity].
+Qed.
+
+(* what the pinned reader answers: the window count of the lines in front of the first long one; it is the window
+   count of the journal exactly when no line is long.  The repaired reader (scanner buffer enlarged, Err() returned)
+   is [count]: C19_window holds for it whatever the line lengths *)
+Theorem C19_journal_reader_v0_cut :
+  forall (hash : Type) (heqb : hash -> hash -> bool) (long : chunk hash -> bool) (from to : Z) (pre : list (chunk hash)) (c : chunk hash) (post : list (chunk hash)),
+  long c = true -> (forall c', In c' pre -> long c' = false) ->
+  count_v0 hash heqb long from to (pre ++ c :: post) = count hash heqb from to pre.
+Proof. exact count_v0_cut. Qed.
+
+Theorem C19_journal_reader_v0_short_lines :
+  forall (hash : Type) (heqb : hash -> hash -> bool) (long : chunk hash -> bool) (from to : Z) (j : list (chunk hash)),
+  (forall c, In c j -> long c = false) -> count_v0 hash heqb long from to j = count hash heqb from to j.
+Proof. exact count_v0_no_long. Qed.
+
+Example C19_journal_reader_v0_cut_hyp_satisfiable :
+  let long := fun c : chunk N => (2 <=? List.length (c_sk c))%nat in
+  long {| c_start := 1%Z; c_end := 2%Z; c_sk := [2%N; 3%N] |} = true /\
+  (forall c', In c' [{| c_start := 0%Z; c_end := 1%Z; c_sk := [1%N] |}] -> long c' = false).
+Proof. cbv zeta. split; [reflexivity | intros c' [<-|[]]; reflexivity]. Qed.
+
 (* ---- a journal sink that fails (Write error with nothing / part of the line / the whole text without the newline /
    the whole line written, Sync error), in any pattern ---- *)
 (* Every chunk that can be read back from the file holds exactly the masked addresses of some recorded events, and its
